@@ -12,6 +12,7 @@ type packetDecoder interface {
 	getVarint() (int64, error)
 	getUVarint() (uint64, error)
 	getArrayLength() (int, error)
+	getNullableArrayLength() (int, error)
 	getCompactArrayLength() (int, error)
 	getBool() (bool, error)
 	getEmptyTaggedFieldArray() (int, error)
